@@ -144,6 +144,10 @@ fn k_be_bytes() {
     let c: u32 = kani::any();
     let d = c.to_be_bytes();
     assert!(d[0] == (c / 16777216) as u8 && d[1] == ((c / 65536) % 256) as u8 && d[2] == ((c / 256) % 256) as u8 && d[3] == (c % 256) as u8, "A4:u32.to_be_bytes");
+    let t: bool = kani::any();
+    assert!(u8::from(t) == if t { 1 } else { 0 }, "A4:u8.from(bool)");
+    let tt: u8 = t.into();
+    assert!(tt == if t { 1 } else { 0 }, "A4:bool.into()");
     let e: [u8; 4] = kani::any();
     assert!(u32::from_be_bytes(e) == (e[0] as u32) * 16777216 + (e[1] as u32) * 65536 + (e[2] as u32) * 256 + e[3] as u32, "A4:u32.from_be_bytes");
 }
